@@ -96,6 +96,18 @@ def evaluate(e, _second=None):
         want = e['f'] & ((1 << w) - 1)
         if field != want:
             return {'m': f'field carries {field}, specification {want} (image {obs["image"].hex()})', 'case': case}
+    if not _second and s['kind'] == 'width':
+        # the same value as the offset of an indirect register operand, written [r1 + v] or [r1 - |v|]: the same field, the same range
+        import yaml
+        cfgd = yaml.safe_load(isa)
+        cfgd['general']['registers'] = ['r1']
+        cfgd['operand_sets']['s1'] = {'operand_values': {'o1': {'type': 'indirect_register', 'register': 'r1', 'offset': {'size': w, 'byte_align': False}}}}
+        v = s['v']
+        isrc = f'ins [r1 + {v}]\n' if v >= 0 else f'ins [r1 - {-v}]\n'
+        r2 = evaluate(e, _second=(isagen.dump(cfgd), isrc))
+        if r2 is not None:
+            r2['m'] = 'as the offset of an indirect register operand: ' + r2['m']
+            return r2
     if not _second:
         # the same statement inside a muted stretch: its bytes are not emitted but its constraints still hold
         lines = src.split('\n')
